@@ -36,9 +36,11 @@ IsPrefixOf(a, b) == Len(a) <= Len(b) /\ SubSeq(b, 1, Len(a)) = a
 Msg(body) == <<"p">> \o body \o <<"s">> \o Delim
 (* the form used on the real transports: the surrounding XML before the body is two symbols, *)
 (* so that a cut can also fall inside it                                                      *)
-Msg2(body) == <<"p", "p">> \o body \o <<"s">> \o Delim
+(* the start tag as five symbols: its 1st byte, bytes 2-3, bytes 4-5, and two halves of the rest -  *)
+(* so that a cut can fall one to five bytes into a message                                          *)
+Msg2(body) == <<"p", "p", "p", "p", "p">> \o body \o <<"s">> \o Delim
 RECURSIVE Concat(_)
 Concat(ms) == IF ms = <<>> THEN <<>> ELSE Head(ms) \o Concat(Tail(ms))
 BodyOf(m) == SubSeq(m, 2, Len(m) - DL - 1)      \* strip p, s and the delimiter
-BodyOf2(m) == SubSeq(m, 3, Len(m) - DL - 1)     \* same for Msg2
+BodyOf2(m) == SubSeq(m, 6, Len(m) - DL - 1)     \* same for Msg2
 =============================================================================
